@@ -350,6 +350,14 @@ package node
 //@   ensures[global;C04] (len(symTbl) < 1 || !mapdom(symTbl[len(symTbl)-1], string(n))) && (len(symTbl) < 2 || !mapdom(symTbl[len(symTbl)-2], string(n))) ==>
 //@       dyntype(result) == typeid[Name]() && result.(Name) == n
 //
+// A call pushes a frame of LocalCnt slots and expects its ParamCnt arguments inside it (memory.PushFrame
+// requires argsCnt <= localCnt): the slot count a function literal is given covers its parameters.
+//@ func (Function).STRewrite [C04,C18]
+//@   checks
+//@   modifies *
+//@   ensures[frame_covers_params;C04,C18] dyntype(result) == typeid[Function]() && result.(Function).LocalCnt >= len(f.Parameters.Elems)
+//@   loop 0 invariant true
+//
 // ---- every run mode resolves names before it compiles (C16, C04) ------------------------------------
 // rewritten(n): n is the result of STRewrite (parameters, locals and captured variables are slots, not
 // global names). The compiler entry points demand it; processInput and cmd/calc's -eval branch are
